@@ -57,10 +57,17 @@ def k_align(run, case):
         n = -1 if rng.random() < .4 else int(rng.integers(3, N + 1))
     ref, est, ext, noise = make_pair(rng, N)
     stamped = bool(rng.random() < .5)
-    t_ref = gen.make_evo(ref, storage if rng.random() < .7 else "se3", stamped)
-    t_est = gen.make_evo(est, storage, stamped)
+    ref_storage = storage if rng.random() < .7 else "se3"
+    fl_ref, fl_est = gen.rand_flavour(rng), case.get("flavour") or gen.rand_flavour(rng)
+    t_ref = gen.make_evo(ref, ref_storage, stamped, flavour=fl_ref)
+    t_est = gen.make_evo(est, storage, stamped, flavour=fl_est)
     if case.get("preread") or (rng.random() < .3):
         t_est.positions_xyz, t_est.poses_se3, t_est.orientations_quat_wxyz  # materialise all
+    elif rng.random() < .4:
+        # partial pre-reads: only some representations cached before the alignment
+        for attr in ("positions_xyz", "orientations_quat_wxyz", "poses_se3", "distances", "path_length"):
+            if rng.random() < .35:
+                getattr(t_est, attr)
     ref_before = contracts.field_snapshot(t_ref)
     cs = mode == "similarity"
     only = mode == "scale_only"
@@ -118,8 +125,8 @@ def k_align(run, case):
                 for k, a in ref.items()}
         est2["p"][used:] += rng.normal(size=(N - used, 3)) * ext * 3
         ref2["p"][used:] += rng.normal(size=(N - used, 3)) * ext * 3
-        o2 = contracts.outcome_of(gen.make_evo(est2, storage, stamped).align,
-                                  gen.make_evo(ref2, storage, stamped), cs, only, n)
+        o2 = contracts.outcome_of(gen.make_evo(est2, storage, stamped, flavour=fl_est).align,
+                                  gen.make_evo(ref2, ref_storage, stamped, flavour=fl_ref), cs, only, n)
         same = o2[0] == "ok" and core.bits_equal(o2[1][0], r) and core.bits_equal(o2[1][1], t) \
             and float(o2[1][2]) == float(s)
         run.check(same, "result depends on the first n pairs only", case,
@@ -212,7 +219,8 @@ def k_recorded(run, case):
     n_to_align = -1 if rng.random() < .6 or not (align or cs) else int(rng.integers(3, N + 1))
     tool = case.get("tool") or ("ape" if rng.random() < .5 else "rpe")
     stamped = bool(rng.random() < .7)
-    t_ref, t_est = gen.make_evo(ref, storage, stamped), gen.make_evo(est, storage, stamped)
+    t_ref = gen.make_evo(ref, storage, stamped, flavour=gen.rand_flavour(rng))
+    t_est = gen.make_evo(est, storage, stamped, flavour=gen.rand_flavour(rng))
     rel = list(metrics.PoseRelation)[rng.integers(6)]
     with core.quiet():
         if tool == "ape":
@@ -269,6 +277,8 @@ def main(run):
     corpus = [{"mode": m, "storage": st, "N": N, "n": nn, "preread": pr}
               for m in MODES[:3] for st in ("se3", "xyzq") for (N, nn) in ((3, -1), (8, 3), (30, 10), (30, 30))
               for pr in (False, True)]
+    corpus += [{"mode": m, "storage": "se3", "N": 12, "n": -1, "preread": pr, "flavour": fl}
+               for m in MODES[:3] for pr in (False, True) for fl in ("stacked", "lists")]
     for i in run.mine(len(corpus)):
         k_align(run, run.case("align", 10**6 + i, **corpus[i]))
     rc = [{"combo": c, "tool": t} for c in [(True, False, False), (True, True, False),
